@@ -135,14 +135,14 @@ class Prop:
 
     # ------------------------------------------------------------------ Layer P
     def oblige(self, name, function, path, res, *, refute=None, pool=(), code=None, spec=None, hyps=(), strict=False,
-               symbols=None, tol_cmp=None, note=None):
+               symbols=None, tol_cmp=None, note=None, soft=False):
         """register the outcome `res` of a prove()/prove_eq() call for a named obligation and decide its verdict.
         refute(env) -> None | dict : runs the REAL function natively on a concrete candidate and judges the clause.
         code/spec: the two sides (z3 terms) for the term-comparison fallback; strict=True: no such fallback."""
         self.functions.add(function)
         rec = dict(name=name, function=function, path=path, result=res['result'], backend=res.get('backend'),
                    ms=res.get('ms'), stage=res.get('stage'))
-        for k in ('atoms', 'arg_queries', 'vacuous'):
+        for k in ('atoms', 'arg_queries', 'vacuous', 'cvc5_recheck'):
             if k in res:
                 rec[k] = res[k]
         if note:
@@ -150,6 +150,18 @@ class Prop:
         self.obl.append(rec)
         self.log('  [%10s] %s [%s] %sms' % (res['result'], name, path, res.get('ms')))
         if res['result'] == 'discharged':
+            if os.environ.get('VERIF_REFUTER_SELFTEST') == '1' and refute is not None:
+                # development guard: a refuter must find nothing on a tree where its obligation is discharged
+                for w in list(pool)[:8]:
+                    try:
+                        r = refute(w)
+                    except EngineError:
+                        raise
+                    except Exception:
+                        r = None
+                    if r:
+                        print('REFUTER-SELFTEST-FAILED %s [%s]: %r' % (name, path, r), flush=True)
+                        break
             return True
         # ---- not discharged: refutation search on the real code
         self.undischarged = getattr(self, 'undischarged', 0) + 1
@@ -221,6 +233,13 @@ class Prop:
         if kf and not kf.get('signature'):
             rec['known_finding'] = True
             self._emit_known(kf)
+            return False
+        if soft:
+            # the construct is outside what the engine models (res['result'] says why): undecided, never a violation by itself
+            line = 'UNDECIDED property=%s obligation=%s path=%s (%s; refutation search on the real code found nothing)' % (self.pid, name, path, res['result'])
+            self.lines.append(line)
+            print(line, flush=True)
+            rec['undecided'] = True
             return False
         if strict or code is None or spec is None:
             self.violation(name + '.' + path, dict(base, failing_input=None,
@@ -362,6 +381,7 @@ class Prop:
                    solver_queries=len(E.QLOG),
                    loops_cut=self.loops, summaries_assumed=self.summaries,
                    written_module_state=ST.describe(),
+                   cvc5_recheck_of_discharging_queries=dict(E.RECHECK) if E.THOROUGH else 'thorough tier only',
                    engine_crosscheck=self.xcheck,
                    known_findings_reported=[list(k) for k in self.known_hit],
                    unproved_identities=[o['name'] for o in self.obl if o.get('unproved_identity')],
